@@ -33,6 +33,7 @@ import (
 	"github.com/IrineSistiana/mosdns/v5/pkg/query_context"
 	"github.com/IrineSistiana/mosdns/v5/pkg/upstream"
 	"github.com/IrineSistiana/mosdns/v5/pkg/utils"
+	"github.com/IrineSistiana/mosdns/v5/pkg/verifhook"
 	"github.com/IrineSistiana/mosdns/v5/plugin/executable/sequence"
 	"github.com/miekg/dns"
 	"github.com/prometheus/client_golang/prometheus"
@@ -296,6 +297,7 @@ func (f *Forward) exchange(ctx context.Context, qCtx *query_context.Context, us 
 			case resChan <- res{r: r, err: err}:
 			case <-done:
 			}
+			verifhook.PointArg("forward.result.delivered", u.u)
 		}(qCtx.Id(), qCtx.QQuestion())
 	}
 
